@@ -77,6 +77,7 @@ def run(ck, ctx):
                  "minPhiS": "minPhiS"}
         nodes = {k: D.A(v) for k, v in names.items()}
         P = PolyFacet(I, opaque_ids={n.id for n in nodes.values()}, gather_transparent=True)
+        P.domain_clip_transparent = True
         env = {k: P.of(n) for k, n in nodes.items()}
 
         def row_of(v):
@@ -104,21 +105,7 @@ def run(ck, ctx):
         # line of sight: cubic roots
         e = dict(env, u4=row_of("losPathLen"))
         e, roots = cubic_refs(P, e)
-        base, chain = scatter_chain(D.A("losPathLen"))
-        found = {}
-        for sc in chain:
-            val = P.of(sc.args[2])
-            hit = [k for k, rv in roots.items() if P.equal(val, rv)]
-            ck.ob("R01.2", f"line-of-sight store '{g.show(sc.args[1], 2)}' holds a root of the sampling cubic",
-                  bool(hit), sc, "RegionGeom.throw",
-                  f"matches {hit}" if hit else "value is none of the three trigonometric roots / the "
-                  "Cardano root of  L^3 - 3aL - 2r = 0 with -2r/3 = G(maxL) - bracket*u4",
-                  sides={"code": P.show(val)[:400]})
-            for h in hit:
-                found[h] = sc
-        ck.floor("R01.2", len(chain), 4, "stores into losPathLen")
-        ck.ob("R01.2", "all four roots of the cubic are considered", len(found) == 4,
-              D.A("losPathLen"), "RegionGeom.throw", f"found {sorted(found)}")
+        los_rules(ck, "R01.2", D, P, roots)
         # horizon distance and R^2
         P2 = PolyFacet(I, opaque_ids={nodes["core"].id, nodes["R2"].id})
         e2 = {"core": P2.of(nodes["core"]), "R2": P2.of(nodes["R2"])}
@@ -202,6 +189,88 @@ def run(ck, ctx):
     ck.guard(r016, "R01.6")
     ck.info["graph_nodes"] = len(g.nodes)
     ck.info["files_analysed"] = ctx.prog.digests({"src/nuspacesim/simulation/geometry/region_geometry.py"})
+
+
+def strip_clip(n):
+    """(inner, lo, hi) if n == clip(inner, lo, hi) (np.clip or minimum(maximum(..)) nest), else None"""
+    from .common import call_args, ext_name
+    q = ext_name(n)
+    if q == "numpy.clip":
+        pos, kws = call_args(n)
+        lo = pos[1] if len(pos) > 1 else kws.get("a_min") or kws.get("min")
+        hi = pos[2] if len(pos) > 2 else kws.get("a_max") or kws.get("max")
+        if pos and lo is not None and hi is not None:
+            return pos[0], lo, hi
+    if q in ("numpy.minimum", "numpy.fmin") and len(n.args) == 3:
+        for inner, hi in ((n.args[1], n.args[2]), (n.args[2], n.args[1])):
+            if ext_name(inner) in ("numpy.maximum", "numpy.fmax") and len(inner.args) == 3:
+                return inner.args[1], inner.args[2], hi
+    if q in ("numpy.maximum", "numpy.fmax") and len(n.args) == 3:
+        for inner, lo in ((n.args[1], n.args[2]), (n.args[2], n.args[1])):
+            if ext_name(inner) in ("numpy.minimum", "numpy.fmin") and len(inner.args) == 3:
+                return inner.args[1], lo, inner.args[2]
+    return None
+
+
+def los_rules(ck, rule, D, P, roots):
+    """the line-of-sight length holds a root of the sampling cubic.
+    Shape A (masked stores): every store holds one of the four roots and all four are considered.
+    Shape B (direct): the value is one trigonometric root, clipped into [minLOS, maxLOS]; the chosen root is
+    the one whose cosine factor lies in [-1/2, 1/2] (the only root that can be below the horizon distance)."""
+    import math
+    from ..facets.range import RangeFacet
+    from ..ir import walk
+    from .common import is_ext_call
+    I = D.I
+    g = I.g
+    func = "RegionGeom.throw"
+    L = D.A("losPathLen")
+    base, chain = scatter_chain(L)
+    if chain:
+        found = {}
+        for sc in chain:
+            val = P.of(sc.args[2])
+            hit = [k for k, rv in roots.items() if P.equal(val, rv)]
+            ck.ob(rule, f"line-of-sight store '{g.show(sc.args[1], 2)}' holds a root of the sampling cubic",
+                  bool(hit), sc, func,
+                  f"matches {hit}" if hit else "value is none of the three trigonometric roots / the "
+                  "Cardano root of  L^3 - 3aL - 2r = 0 with -2r/3 = G(maxL) - bracket*u4",
+                  sides={"code": P.show(val)[:400]})
+            for h in hit:
+                found[h] = sc
+        ck.floor(rule, len(chain), 3, "stores into losPathLen")
+        ck.ob(rule, "all roots of the cubic are considered (three trigonometric, one for a positive discriminant)",
+              len(found) == 4, L, func, f"found {sorted(found)}")
+        return "stores"
+    sc = strip_clip(L)
+    inner = sc[0] if sc else L
+    val = P.of(inner)
+    hit = [k for k, rv in roots.items() if k.startswith("trig") and P.equal(val, rv)]
+    ck.ob(rule, "the line-of-sight length is a trigonometric root of the sampling cubic", bool(hit), L, func,
+          f"matches {hit}" if hit else "value is none of the roots of  L^3 - 3aL - 2r = 0 with -2r/3 = G(maxL) - bracket*u4",
+          sides={"code": P.show(val)[:400]})
+    # physical root: 2 sqrt(a) cos(phi) <= sqrt(a)  <=>  cos(phi) in [-1/2, 1/2]
+    coss = [n for n in walk([inner]) if is_ext_call(n, "numpy.cos") and n.fn is not None and n.fn.qualname == func]
+    rf = RangeFacet(I)
+    ok_phys = False
+    detail = f"{len(coss)} cosine factor(s)"
+    if len(coss) == 1:
+        iv = rf.of(coss[0])
+        ok_phys = iv.within(-0.5, 0.5)
+        detail = f"cosine factor of the chosen root ranges over {iv!r}"
+    ck.ob(rule, "the chosen root is the one that cannot exceed the horizon distance (cosine factor in [-1/2, 1/2])",
+          ok_phys, inner, func, detail)
+    acs = [n for n in walk([inner]) if is_ext_call(n, "numpy.arccos") and n.fn is not None and n.fn.qualname == func]
+    ok_arg = bool(acs) and all(strip_clip(a.args[1]) is not None and
+                               _is_const(strip_clip(a.args[1])[1], -1) and _is_const(strip_clip(a.args[1])[2], 1)
+                               for a in acs)
+    ck.ob(rule, "the arccos argument is clipped to [-1, 1] (rounding at the faces u4 = 0, 1 cannot produce NaN)",
+          ok_arg, acs[0] if acs else inner, func, "")
+    return "direct"
+
+
+def _is_const(n, v):
+    return n.op == "Const" and n.attr == v
 
 
 def region_predicate(ck, D, rule):
